@@ -38,7 +38,8 @@ def _norm_kw(node):
 
 class RulesNP(Rules2):
     def __init__(self, expr=(), stmt=(), skip=(), attr_vars=None, strings=None, float_=None,
-                 unwrap=("none", "some {x}"), **kw):
+                 unwrap=("none", "some {x}"), merge_if=True, **kw):
+        self.merge_if = merge_if
         binop = {ast.Div: "({a} / {b})"}
         binop.update(kw.pop("binop", None) or {})
         stmt = list(stmt)
@@ -101,8 +102,119 @@ class TranslatorNP(Translator2):
         except (KeyError, IndexError) as e:
             raise Untranslatable("template %r needs the python variable %s" % (tmpl, e))
 
+    # ------------------------------------------------------------------------------------------ normalisations
+    MARK = "\0mark:"
+
+    def _snapshot(self, nodes, scope):
+        return {n.id: scope.get(n.id) for e in nodes for n in ast.walk(e) if isinstance(n, ast.Name)}
+
+    def _set_mark(self, scope, name, **mark):
+        """marks live in the scope (so that they follow the copies made for the arms of an `if`) as a token"""
+        if not hasattr(self, "_marks"):
+            self._marks = {}
+        tok = "\0m%d" % len(self._marks)
+        self._marks[tok] = mark
+        scope[self.MARK + name] = tok
+
+    def _mark_valid(self, name, scope):
+        m = getattr(self, "_marks", {}).get(scope.get(self.MARK + name))
+        if m is None:
+            return None
+        if m["lean"] != scope.get(name):           # the variable was rebound since
+            return None
+        if any(scope.get(k) != v for k, v in m["snap"].items()):
+            raise Untranslatable("`%s` is used after a variable of its defining expression was rebound" % name)
+        return m
+
+    def _slice_of(self, node, scope):
+        """an index expression with slice-valued locals replaced by the slices they hold"""
+        if isinstance(node, ast.Name):
+            m = self._mark_valid(node.id, scope)
+            if m and m["kind"] == "slice":
+                a = list(m["args"]) + [None] * (3 - len(m["args"]))
+                if len(m["args"]) == 1:
+                    a = [None, m["args"][0], None]
+                none = lambda x: None if x is None or (isinstance(x, ast.Constant) and x.value is None) else x
+                return ast.Slice(lower=none(a[0]), upper=none(a[1]), step=none(a[2]))
+            return node
+        if isinstance(node, ast.Tuple):
+            return ast.Tuple(elts=[self._slice_of(e, scope) for e in node.elts], ctx=node.ctx)
+        return node
+
+    def _helper(self, call):
+        """the python function a call refers to, when it is a plain function of the translated function's module"""
+        import types
+        if not (isinstance(call, ast.Call) and isinstance(call.func, ast.Name)):
+            return None
+        f = getattr(self, "_globals", {}).get(call.func.id)
+        if isinstance(f, types.FunctionType) and f.__module__ == getattr(self, "_module", None):
+            return f
+        return None
+
+    def _has_rule(self, node):
+        return any(match(pat, node, {}) for pat, _t, _f in self.r.expr)
+
+    def _bind_call(self, fnode, call):
+        """[(parameter, argument AST)] of a call, defaults from the signature"""
+        a = fnode.args
+        if a.vararg or a.kwarg or a.posonlyargs:
+            raise Untranslatable("helper `%s` with a variadic signature" % fnode.name)
+        params = [x.arg for x in a.args + a.kwonlyargs]
+        defaults = dict(zip([x.arg for x in a.args][len(a.args) - len(a.defaults):], a.defaults))
+        defaults.update({k.arg: d for k, d in zip(a.kwonlyargs, a.kw_defaults) if d is not None})
+        given = dict(zip([x.arg for x in a.args], call.args))
+        if len(call.args) > len(a.args) or any(k.arg is None for k in call.keywords):
+            raise Untranslatable("call of helper `%s`" % fnode.name)
+        for k in call.keywords:
+            if k.arg in given or k.arg not in params:
+                raise Untranslatable("call of helper `%s`" % fnode.name)
+            given[k.arg] = k.value
+        out = []
+        for p_ in params:
+            if p_ in given:
+                out.append((p_, given[p_], False))
+            elif p_ in defaults:
+                out.append((p_, defaults[p_], True))
+            else:
+                raise Untranslatable("call of helper `%s`: no argument for `%s`" % (fnode.name, p_))
+        return out
+
+    @staticmethod
+    def _body_of(fnode):
+        body = list(fnode.body)
+        if body and isinstance(body[0], ast.Expr) and isinstance(body[0].value, ast.Constant) \
+                and isinstance(body[0].value.value, str):
+            body = body[1:]
+        return body
+
+    def _callee_scope(self, fnode, call, scope, lines=None):
+        """scope of an inlined helper: its parameters bound to the translated arguments; the caller's Lean names are
+        reserved so that the helper's `let`s never shadow a name the continuation reads"""
+        sc = {"\0cap%d" % i: v for i, v in enumerate(sorted(set(v for v in scope.values() if isinstance(v, str))))}
+        for p_, arg, is_default in self._bind_call(fnode, call):
+            term = self.pure(arg, {} if is_default else scope)
+            if lines is None:
+                sc[p_] = term
+            else:
+                new = self.fresh(p_, sc)
+                sc[p_] = new
+                lines.append("let %s := %s" % (new, term))
+        return sc
+
     # ------------------------------------------------------------------------------------------ expressions
     def expr(self, node, scope):
+        if isinstance(node, ast.Subscript):
+            sl = self._slice_of(node.slice, scope)
+            if sl is not node.slice:
+                node = ast.Subscript(value=node.value, slice=sl, ctx=node.ctx)
+        h = self._helper(node)
+        if h is not None and not self._has_rule(node):
+            fnode, _src = source_ast(h)
+            body = self._body_of(fnode)
+            if len(body) == 1 and isinstance(body[0], ast.Return) and body[0].value is not None:
+                return self.expr(body[0].value, self._callee_scope(fnode, node, scope))
+            raise Untranslatable("helper `%s` used as an operand (only `t = %s(..)` / `return %s(..)` are inlined)" % (
+                fnode.name, fnode.name, fnode.name))
         for i, (pat, tmpl, flag) in enumerate(self.r.expr):
             env = {}
             if match(pat, node, env):
@@ -121,6 +233,36 @@ class TranslatorNP(Translator2):
             f = Fraction(repr(node.value))
             return self.r.float_.format(n=f.numerator, d=f.denominator), ""
         return Translator2.expr(self, node, scope)
+
+    def comprehension(self, node, scope, kind):
+        g = node.generators[0] if len(node.generators) == 1 else None
+        elts = None
+        if g is not None and not g.is_async and isinstance(g.target, ast.Name):
+            if isinstance(g.iter, (ast.Tuple, ast.List)):
+                elts = g.iter.elts
+            elif isinstance(g.iter, ast.Name):
+                m = self._mark_valid(g.iter.id, scope)
+                if m and m["kind"] == "tuple":
+                    elts = m["elts"]
+        if elts is None:
+            return Translator2.comprehension(self, node, scope, kind)
+        parts = []
+        for e in elts:
+            sc = dict(scope)
+            sc[g.target.id] = self.pure(e, scope)
+            cond = " && ".join(self.pure(c, sc) for c in g.ifs) if g.ifs else None
+            body = self.pure(node.elt, sc)
+            if kind == "list":
+                parts.append("[%s]" % body if cond is None else "(if %s then [%s] else [])" % (cond, body))
+            elif kind == "any":
+                parts.append(body if cond is None else "(%s && %s)" % (cond, body))
+            else:
+                parts.append(body if cond is None else "(!(%s) || %s)" % (cond, body))
+        if kind == "list":
+            return "(" + " ++ ".join(parts) + ")" if parts else "[]"
+        if not parts:
+            return "false" if kind == "any" else "true"
+        return "(" + (" || " if kind == "any" else " && ").join(parts) + ")"
 
     # ------------------------------------------------------------------------------------------ statements
     def assigned_names(self, stmts):
@@ -169,6 +311,25 @@ class TranslatorNP(Translator2):
         return out
 
     def loop(self, st, rest, scope, ind, ctx):
+        elts = None
+        if isinstance(st.iter, (ast.Tuple, ast.List)):
+            elts = st.iter.elts
+        elif isinstance(st.iter, ast.Name):
+            m = self._mark_valid(st.iter.id, scope)
+            if m and m["kind"] == "tuple":
+                elts = m["elts"]
+        if elts is not None and not st.orelse and not self._has(st.body, (ast.Break, ast.Continue), False):
+            # python evaluates the tuple ONCE, before the first iteration: bind every element first
+            tag = len(scope)
+            unrolled = [ast.Assign(targets=[ast.Name(id="unrolled_item_%d_%d" % (tag, j), ctx=ast.Store())], value=e)
+                        for j, e in enumerate(elts)]
+            for j, _e in enumerate(elts):
+                unrolled.append(ast.Assign(targets=[st.target],
+                                           value=ast.Name(id="unrolled_item_%d_%d" % (tag, j), ctx=ast.Load())))
+                unrolled.extend(st.body)
+            for u in unrolled:
+                ast.fix_missing_locations(u)
+            return self.block(unrolled + list(rest), scope, ind, ctx)
         targets = [n.id for n in ast.walk(st.target) if isinstance(n, ast.Name)]
         if any(t in scope for t in targets):
             item = "loop_item_%d" % len(scope)
@@ -225,15 +386,76 @@ class TranslatorNP(Translator2):
                 v = _literal(c)
                 if v is not None:
                     return self.block(list(st.body if v else st.orelse) + rest, dict(scope), ind, ctx)
+                if self.r.merge_if and rest and self._only_assigns(st):
+                    nb, ne = self.assigned_names(st.body), self.assigned_names(st.orelse)
+                    names = [n for n in nb + [x for x in ne if x not in nb] if n in scope or (n in nb and n in ne)]
+                    if not names:
+                        return self.block(rest, scope, ind, ctx)       # the arms bind temporaries nobody can read
+                    from .py2lean2 import _tuple
+
+                    def arm_end(s_, i_):
+                        return "  " * i_ + _tuple([s_[n] for n in names])
+
+                    def arm_exit(_v, _s, _i):
+                        raise Untranslatable("exit inside a conditional update")
+                    actx = _Ctx(exit_=arm_exit, end=arm_end, brk=None)
+                    a = self.block(list(st.body), dict(scope), ind + 2, actx)
+                    b = self.block(list(st.orelse), dict(scope), ind + 2, actx)
+                    sc = dict(scope)
+                    pv = self.fresh("p", sc)
+                    sc["\0tmp" + pv] = pv
+                    out = "%slet %s := (if %s then\n%s\n%s  else\n%s)\n" % (pad, pv, c, a, pad, b)
+                    for j, n in enumerate(names):
+                        new = self.fresh(n, sc)
+                        sc[n] = new
+                        sc.pop(self.MARK + n, None)
+                        out += "%slet %s := %s\n" % (pad, new, _proj(pv, j, len(names)))
+                    return out + self.block(rest, sc, ind, ctx)
                 a = self.block(list(st.body) + rest, dict(scope), ind + 1, ctx)
                 b = self.block(list(st.orelse) + rest, dict(scope), ind + 1, ctx)
                 return "%sif %s then\n%s\n%selse\n%s" % (pad, c, a, pad, b)
+            # ---- a helper function of the same module, inlined
+            call = st.value if isinstance(st, (ast.Assign, ast.Return)) and isinstance(st.value, ast.Call) else None
+            h = self._helper(call) if call is not None else None
+            if h is not None and not self._has_rule(call) and not any(match(pat, st, {}) for pat, _r, _t in self.r.stmt):
+                if isinstance(st, ast.Return):
+                    tmp = ast.Name(id="inlined_result", ctx=ast.Store())
+                    st2 = ast.Assign(targets=[tmp], value=call)
+                    ret = ast.Return(value=ast.Name(id="inlined_result", ctx=ast.Load()))
+                    for u in (st2, ret):
+                        ast.fix_missing_locations(u)
+                    return self.block([st2, ret] + list(rest), scope, ind, ctx)
+                if len(st.targets) == 1:
+                    return self._inline(h, call, st.targets[0], rest, scope, ind, ctx)
+            # ---- `first = slice(a, b)`: no value of its own, read back inside subscripts
+            if (isinstance(st, ast.Assign) and len(st.targets) == 1 and isinstance(st.targets[0], ast.Name)
+                    and isinstance(st.value, ast.Call) and isinstance(st.value.func, ast.Name)
+                    and st.value.func.id == "slice" and not st.value.keywords and 1 <= len(st.value.args) <= 3
+                    and "slice" not in scope):
+                sc = dict(scope)
+                sc.pop(st.targets[0].id, None)
+                self._set_mark(sc, st.targets[0].id, kind="slice", lean=None, args=list(st.value.args),
+                               snap=self._snapshot(st.value.args, scope))
+                return self.block(rest, sc, ind, ctx)
+            # ---- `blocks = (a, b, c)`: translated as usual, and remembered for `for x in blocks`
+            if (isinstance(st, ast.Assign) and len(st.targets) == 1 and isinstance(st.targets[0], ast.Name)
+                    and isinstance(st.value, (ast.Tuple, ast.List)) and st.value.elts
+                    and not any(match(pat, st, {}) for pat, _r, _t in self.r.stmt) and not self._has_rule(st.value)):
+                e = self.pure(st.value, scope)
+                lines, sc = self.bind_target(st.targets[0], e, scope)
+                self._set_mark(sc, st.targets[0].id, kind="tuple", lean=sc[st.targets[0].id], elts=list(st.value.elts),
+                               snap=self._snapshot(st.value.elts, scope))
+                return "".join(pad + l + "\n" for l in lines) + self.block(rest, sc, ind, ctx)
             if isinstance(st, ast.Return):
                 if st.value is None:
                     if self.r.end is None:
                         raise Untranslatable("bare return")
                     return ctx.exit(self._fmt(self.r.end, scope), scope, ind)
                 e, flag = self.expr(st.value, scope)
+                if getattr(ctx, "inline_ret", None) is not None:
+                    if flag == "bind":
+                        raise Untranslatable("helper returning a call that may raise")
+                    return ctx.inline_ret(e, scope, ind)
                 return ctx.exit(e if flag == "bind" else self._fmt(self.r.ret, scope, e=e), scope, ind)
             for i, (pat, recv, tmpl) in enumerate(self.r.stmt):
                 env = {}
@@ -281,6 +503,75 @@ class TranslatorNP(Translator2):
                     return self._unwrap(e, p, k, scope, ind, ctx)
         return Translator2.block(self, stmts, scope, ind, ctx)
 
+    def _only_assigns(self, st):
+        """are both arms of the `if` straight-line updates of variables (nested `if`s of the same kind allowed)?"""
+        def ok(sts):
+            for x in sts:
+                if isinstance(x, ast.Pass) or (isinstance(x, ast.Expr) and isinstance(x.value, ast.Constant)):
+                    continue
+                if any(match(pat, x, {}) for pat in self.r.skip):
+                    continue
+                hit = [i for i, (pat, _r, _t) in enumerate(self.r.stmt) if match(pat, x, {})]
+                if hit:
+                    if self.r.stmt_flag[hit[0]] == "bind":
+                        return False
+                    continue
+                if isinstance(x, ast.If):
+                    if not (ok(x.body) and ok(x.orelse)):
+                        return False
+                    continue
+                if isinstance(x, ast.AugAssign) and isinstance(x.target, ast.Name):
+                    continue
+                if isinstance(x, ast.Assign) and len(x.targets) == 1:
+                    v = x.value
+                    if self._may_raise(x) or (self._helper(v) is not None and not self._has_rule(v)):
+                        return False
+                    if isinstance(v, (ast.Tuple, ast.List)) and isinstance(x.targets[0], ast.Name):
+                        return False                # a literal a later `for` may want to unroll
+                    if isinstance(v, ast.Call) and isinstance(v.func, ast.Name) and v.func.id == "slice":
+                        return False
+                    continue
+                return False
+            return True
+        return ok(st.body) and ok(st.orelse)
+
+    def _inline(self, h, call, target, rest, scope, ind, ctx):
+        """`target = helper(args)`: the helper's body in place; `return E` goes on with `target = E` and the rest of the
+        caller, `raise` raises in the caller"""
+        fnode, _src = source_ast(h)
+        body = self._body_of(fnode)
+
+        def ret_in_loop(sts, inside):
+            for x in sts:
+                if isinstance(x, ast.Return) and inside:
+                    return True
+                if isinstance(x, ast.If) and (ret_in_loop(x.body, inside) or ret_in_loop(x.orelse, inside)):
+                    return True
+                if isinstance(x, ast.For) and ret_in_loop(x.body, True):
+                    return True
+            return False
+        if ret_in_loop(body, False):
+            raise Untranslatable("helper `%s` returns from inside a loop" % fnode.name)
+        lines = []
+        sc_c = self._callee_scope(fnode, call, scope, lines)
+        pad = "  " * ind
+
+        def cont(value, _s, i):
+            ls, sc = self.bind_target(target, value, scope)
+            return "".join("  " * i + l + "\n" for l in ls) + self.block(rest, sc, i, ctx)
+
+        def end(_s, _i):
+            raise Untranslatable("helper `%s` may fall off its end" % fnode.name)
+        ctx2 = _Ctx(exit_=ctx.exit, end=end, brk=None)
+        ctx2.inline_ret = cont
+        saved = (getattr(self, "_globals", None), getattr(self, "_module", None))
+        self._globals, self._module = h.__globals__, h.__module__
+        try:
+            text = self.block(body, sc_c, ind, ctx2)
+        finally:
+            self._globals, self._module = saved
+        return "".join(pad + l + "\n" for l in lines) + text
+
     def top_ctx(self):
         def end(scope, ind):
             if self.r.end is None:
@@ -290,6 +581,9 @@ class TranslatorNP(Translator2):
 
     def function(self, fn, arg_names, ind=2, allow_unused=()):
         node, _src = source_ast(fn)
+        f = getattr(fn, "__func__", fn)
+        self._globals = getattr(f, "__globals__", {})
+        self._module = getattr(f, "__module__", None)
         return self.function_node(node, arg_names, ind, allow_unused)
 
     def function_node(self, node, arg_names, ind=2, allow_unused=()):
